@@ -77,9 +77,12 @@ pub fn shard_main(prop: &str, registry: &[Entry]) {
         let bad2 = bad.clone();
         let inputs2 = inputs.clone();
         hrt::real::IN_SCHEDULER.store(true, Ordering::Relaxed);
+        let traced_replay = sched.starts_with("T:");
+        let sched = sched.trim_start_matches("T:").to_string();
         shuttle::replay(
             move || {
-                let res = run_threads(f, &inputs2);
+                // traced groups are marked by a schedule string that starts with "T:"
+                let res = run_threads(f, &inputs2, traced_replay);
                 for (k, r) in res.iter().enumerate() {
                     if !agrees(r, &exps[k]) {
                         *bad2.lock().unwrap() = Some((k, r.short()));
@@ -120,8 +123,8 @@ pub fn shard_main(prop: &str, registry: &[Entry]) {
                 .spawn(move || {
                     hrt::real::silence_panics();
                     let r = f(&inp2, Mode::Recorded);
-                    // scheduling points of this parse: tracer callbacks plus calls of extern functions
-                    let ext_calls = hrt::user::take_calls().iter().filter(|(f, _)| !f.contains("::chk")).count();
+                    // scheduling points of this parse: tracer callbacks plus calls of user (extern and check) functions
+                    let ext_calls = hrt::user::take_calls().len();
                     (r, take_trace().len() + ext_calls)
                 })
                 .unwrap()
@@ -184,7 +187,21 @@ pub fn shard_main(prop: &str, registry: &[Entry]) {
         if let (Some(a), Some(b)) = (by_len.first(), (0..ev.len()).find(|b| ev[*b].1 >= 3 && ev[*b].1 < lo)) {
             plan.push((vec![*a, b], Some(bound)));
         }
-        for (p, pbound) in plan {
+        // a parse through `parse_with_trace` (parked inside its user functions) next to plain parses of the same grammar
+        let mut traced_plan: Vec<(Vec<usize>, Option<usize>)> = Vec::new();
+        if case.family == "pure/traced-neighbour" {
+            for a in 0..ev.len() {
+                for b in 0..ev.len() {
+                    if ev[a].1 <= 24 && ev[b].1 <= 24 {
+                        traced_plan.push((vec![a, b], Some(bound.max(3))));
+                    }
+                }
+            }
+        }
+        let n_plain = plan.len();
+        plan.extend(traced_plan);
+        for (pi, (p, pbound)) in plan.into_iter().enumerate() {
+            let traced_first = pi >= n_plain;
             groups += 1;
             let ins: Vec<String> = p.iter().map(|i| ev[*i].0.clone()).collect();
             let exps: Vec<(bool, String, Real)> = p.iter().map(|i| ev[*i].2.clone()).collect();
@@ -209,7 +226,7 @@ pub fn shard_main(prop: &str, registry: &[Entry]) {
                 };
                 let runner = shuttle::Runner::new(scheduler, config);
                 runner.run(move || {
-                    let res = run_threads(f, &ins2);
+                    let res = run_threads(f, &ins2, traced_first);
                     c2.fetch_add(1, Ordering::Relaxed);
                     o2.lock().unwrap().insert(format!("{:?}", res.iter().map(|r| r.short()).collect::<Vec<_>>()));
                     for (k, r) in res.iter().enumerate() {
@@ -249,7 +266,7 @@ pub fn shard_main(prop: &str, registry: &[Entry]) {
                 violations += 1;
                 let msg = pn.downcast_ref::<String>().cloned().unwrap_or_else(|| pn.downcast_ref::<&str>().map(|s| s.to_string()).unwrap_or_default());
                 // shuttle prints the failing schedule into the panic message
-                let sched = schedule_text.trim().to_string();
+                let sched = format!("{}{}", if traced_first { "T:" } else { "" }, schedule_text.trim());
                 let b = bad.lock().unwrap().clone();
                 emit(json!({"k":"viol","prop":"C20","kind":"result-depends-on-interleaving","case": hrt::case_json(case), "input": ins,
                     "expected": format!("{:?}", exps), "actual": format!("{:?}", b), "extra": {"schedule": sched, "message": msg.chars().take(600).collect::<String>()}}));
@@ -261,12 +278,16 @@ pub fn shard_main(prop: &str, registry: &[Entry]) {
         "preemption_bounded_groups": bounded_groups, "preemption_bounded_schedules": bounded_schedules, "preemption_bounded_groups_capped": capped_groups}));
 }
 
-fn run_threads(f: fn(&str, Mode) -> Real, inputs: &[String]) -> Vec<Real> {
+/// `traced_first`: the first thread uses the public `parse_with_trace` (its scheduling points are the user functions it
+/// calls), the others the yielding tracer
+fn run_threads(f: fn(&str, Mode) -> Real, inputs: &[String], traced_first: bool) -> Vec<Real> {
     let hs: Vec<_> = inputs
         .iter()
-        .map(|inp| {
+        .enumerate()
+        .map(|(i, inp)| {
             let inp = inp.clone();
-            shuttle::thread::spawn(move || f(&inp, Mode::Yielding))
+            let mode = if traced_first && i == 0 { Mode::Indented } else { Mode::Yielding };
+            shuttle::thread::spawn(move || f(&inp, mode))
         })
         .collect();
     hs.into_iter().map(|h| h.join().unwrap()).collect()
